@@ -102,6 +102,10 @@ def guard_insts(tier):
     out.append(Inst('c14_malloc_outside_window', 'rlbox_sandbox<vsbx>& s, uint32_t n', 's.malloc_in_sandbox<int>(n);', cl, h,
                     leaves=['dynamic_check', stub, 'vsbx.impl_get_unsandboxed_pointer', 'vsbx.impl_is_pointer_in_sandbox_memory', 'vsbx.impl_is_in_same_sandbox'],
                     prop=PROP, root_name='malloc_in_sandbox', tier=tier, pre=PRE_GHOST + ' unsigned g_malloc_calls;\n', facts=FACTS))
+    # the overload without a count is guarded too (every public overload of a guarded operation has its own guard instance)
+    out.append(Inst('c14_malloc_single_outside_window', 'rlbox_sandbox<vsbx>& s', 's.malloc_in_sandbox<int>();', cl, h.replace('$ROOT(&sb, in_count)', '$ROOT(&sb)'),
+                    leaves=['dynamic_check', stub, 'vsbx.impl_get_unsandboxed_pointer', 'vsbx.impl_is_pointer_in_sandbox_memory', 'vsbx.impl_is_in_same_sandbox'],
+                    prop=PROP, root_name='malloc_in_sandbox', tier=tier, pre=PRE_GHOST + ' unsigned g_malloc_calls;\n', facts=FACTS))
     # frees outside the window are ignored: all three public overloads (contracts of C04)
     from . import C04
     for it in (C04.free_inst(tier), C04.free_overload_inst('opaque', tier), C04.free_overload_inst('cell', tier)):
